@@ -141,6 +141,7 @@ type Engine struct {
 	crashPoints  int
 	hookCheck    bool
 	netUp        bool
+	pools        map[*value][]value // sync.Pool contents per pool (objects Put and not yet handed out again)
 	netStallNew  bool // new connections start out stalled (peer accepts, never reads)
 	netConns     []*netConn
 	netByPtr     map[*value]*netConn
@@ -202,6 +203,7 @@ func (e *Engine) resetPath() {
 	e.hookCheck = false
 	e.netUp = false
 	e.netStallNew = false
+	e.pools = nil
 	e.netConns = nil
 	e.netByPtr = nil
 	e.httpSt = nil
